@@ -146,7 +146,9 @@ class Machine:
                 return
             kids = [self.pool[s % len(self.pool)] for s in o[2]]
             org = og.build_origin(ORIGINS[o[4] % len(ORIGINS)], self.sources)
-            if o[1] % 4 == 0:
+            if o[1] % 5 == 4:  # a class with a child field called `children` between two other child fields
+                n = M.cls("Kids")(header=kids[0], children=tuple(kids[1:]), footer=kids[-1] if len(kids) > 2 else None, origin=org)
+            elif o[1] % 4 == 0:
                 n = M.cls("Mixed")(child=kids[0] if len(kids) % 2 else None, items=tuple(kids), v=o[3] % 3, origin=org)
             elif o[1] % 4 == 1:
                 # union field of two node classes; prefer the second alternative
